@@ -74,6 +74,11 @@ def adaptNodes {ν : Type} (dom : ν → String) (conv : ν → List ν) (mkCons
     (initializersToConstants mkConst
       { inputs := inputs, initializers := convInitializers, nodes := convertNodes dom conv nodes }).nodes
 
+/-- `adapt_inline` as a whole on the model side: decision, conversion, initializer step -/
+def adaptInline {ν : Type} (dom : ν → String) (conv : ν → List ν) (mkConst : String → ν)
+    (m : Inlined) (target : Nat) (inputs convInitializers : List String) (nodes : List ν) : List ν :=
+  adaptNodes dom conv mkConst (decide m target) inputs convInitializers nodes
+
 /-! ## what of `_adapt.py` this model covers (compared with `Generated/AdaptAttrInventory.lean`, tie G) -/
 
 /-- The exits of `adapt_inline` — (kind, returned expression, guarding tests) — one per branch of
